@@ -67,16 +67,18 @@ type cgenDev struct {
 type cgenPoint struct {
 	Path string
 	N    int
+	Int  bool // an integer choice point
 }
 
 type cgenBuilder struct {
 	dev    map[string]int
 	points []cgenPoint
 	used   int
+	ext    bool // extended integer domain (values whose compact encodings take 2, 3, 4, 5 and 9 bytes)
 }
 
 func (b *cgenBuilder) choose(path string, n int) int {
-	b.points = append(b.points, cgenPoint{path, n})
+	b.points = append(b.points, cgenPoint{Path: path, N: n})
 	if o, ok := b.dev[path]; ok {
 		b.used++
 		if o >= n {
@@ -155,6 +157,20 @@ func cgenIntDomain(owner reflect.Type, field string, bits int) []uint64 {
 	return []uint64{0, 1, max}
 }
 
+// cgenIntDomainExt appends, to the basic {0,1,max}, values chosen for their compact (C.6) encodings: 2^7 (2 bytes),
+// 2^14 (3), 2^21 (4), 2^28-1 (4 bytes, high bits carried by the prefix byte), 2^28 (5), 2^49-1 (7 bytes, prefix
+// carries a bit), 2^56 (9) — as far as they fit the field and lie below its maximum.
+func cgenIntDomainExt(dom []uint64, bits int) []uint64 {
+	max := dom[len(dom)-1]
+	out := append([]uint64(nil), dom...)
+	for _, x := range []uint64{1 << 7, 1 << 14, 1 << 21, 1<<28 - 1, 1 << 28, 1<<49 - 1, 1 << 56} {
+		if x < max {
+			out = append(out, x)
+		}
+	}
+	return out
+}
+
 type cgenCtx struct {
 	owner    reflect.Type // enclosing struct type (for field-level registry)
 	field    string
@@ -220,7 +236,12 @@ func (b *cgenBuilder) fill(v reflect.Value, path string, cx cgenCtx) {
 		v.SetBool(b.choose(path, 2) == 1)
 	case reflect.Uint8, reflect.Uint16, reflect.Uint32, reflect.Uint64:
 		dom := cgenIntDomain(cx.owner, cx.field, t.Bits())
-		v.SetUint(dom[b.choose(path, len(dom))])
+		if b.ext {
+			dom = cgenIntDomainExt(dom, t.Bits())
+		}
+		o := b.choose(path, len(dom))
+		b.points[len(b.points)-1].Int = true
+		v.SetUint(dom[o])
 	case reflect.String:
 		v.SetString(cgenStrings[b.choose(path+"~", len(cgenStrings))])
 	case reflect.Array:
@@ -330,7 +351,12 @@ func cgenKeyDomain(mt reflect.Type) []reflect.Value {
 
 // cgenBuild builds the value of type t with the given deviations.
 func cgenBuild(t reflect.Type, devs []cgenDev, cx cgenCtx) (reflect.Value, []cgenPoint) {
-	b := &cgenBuilder{dev: map[string]int{}}
+	return cgenBuildX(t, devs, cx, false)
+}
+
+// cgenBuildX: ext selects the extended integer domain (option indices 0..2 mean the same in both).
+func cgenBuildX(t reflect.Type, devs []cgenDev, cx cgenCtx, ext bool) (reflect.Value, []cgenPoint) {
+	b := &cgenBuilder{dev: map[string]int{}, ext: ext}
 	for _, d := range devs {
 		b.dev[d.P] = d.O
 	}
@@ -780,12 +806,32 @@ type cgenSeed struct {
 	enc  []byte
 	unit uint64 // global unit index (set by the checks)
 	structural bool // every deviation changes the shape of the encoding (see cgenDevStructural)
+	ext        bool // built with the extended integer domain
+	prefixOnly bool // mutation set = the proper prefixes only (compact-tail seeds)
 }
 
 // Val rebuilds the seed value (*T) from its deviations.
 func (s cgenSeed) Val() reflect.Value {
-	v, _ := cgenBuild(s.ct.T, s.devs, s.ct.Ctx)
+	v, _ := cgenBuildX(s.ct.T, s.devs, s.ct.Ctx, s.ext)
 	return v.Addr()
+}
+
+// Mutations enumerates the seed's mutation set (see cgenMutations); thorough widens the
+// replacement lattice on shape-changing seeds.
+func (s cgenSeed) Mutations(thorough bool, f func(m cgenMut)) {
+	if s.prefixOnly {
+		for p := 0; p < len(s.enc); p++ {
+			f(cgenMut{Kind: "prefix", Pos: p})
+		}
+		return
+	}
+	cgenMutations(s.enc, thorough && s.structural, f)
+}
+
+func (s cgenSeed) MutCount(thorough bool) uint64 {
+	n := uint64(0)
+	s.Mutations(thorough, func(cgenMut) { n++ })
+	return n
 }
 
 type cgenSeedRec struct {
@@ -794,6 +840,8 @@ type cgenSeedRec struct {
 	E string    `json:"e"`
 	U uint64    `json:"u"`
 	S bool      `json:"s,omitempty"`
+	X bool      `json:"x,omitempty"`
+	P bool      `json:"po,omitempty"`
 }
 
 // cgenSaveSeeds / cgenLoadSeeds: the parent hands its (sharded) seed list to the
@@ -802,7 +850,7 @@ func cgenSaveSeeds(path string, seeds []cgenSeed) error {
 	var buf bytes.Buffer
 	w := json.NewEncoder(&buf)
 	for _, s := range seeds {
-		if err := w.Encode(cgenSeedRec{s.ct.Name, s.devs, vlib.Hex(s.enc), s.unit, s.structural}); err != nil {
+		if err := w.Encode(cgenSeedRec{s.ct.Name, s.devs, vlib.Hex(s.enc), s.unit, s.structural, s.ext, s.prefixOnly}); err != nil {
 			return err
 		}
 	}
@@ -825,7 +873,7 @@ func cgenLoadSeeds(path string) ([]cgenSeed, error) {
 		if ct == nil {
 			return nil, fmt.Errorf("cgen: unknown type %s in seed file", rec.T)
 		}
-		out = append(out, cgenSeed{ct, rec.D, vlib.Unhex(rec.E), rec.U, rec.S})
+		out = append(out, cgenSeed{ct, rec.D, vlib.Unhex(rec.E), rec.U, rec.S, rec.X, rec.P})
 	}
 	return out, nil
 }
@@ -846,11 +894,28 @@ func cgenDevStructural(d cgenDev) bool {
 func cgenSeedsSel(ct *cgenType, k, maxLen int, structuralOnly bool) []cgenSeed {
 	var out []cgenSeed
 	seen := map[string]bool{}
+	len0 := -1
+	if v0, _ := cgenBuild(ct.T, nil, ct.Ctx); true {
+		var e0 []byte
+		var err0 error
+		if p, _, _ := vlib.Guard(func() { e0, err0 = ct.Enc(v0.Addr()) }); !p && err0 == nil {
+			len0 = len(e0)
+		}
+	}
 	cgenEnumerate(ct.T, k, ct.Ctx, func(devs []cgenDev, v reflect.Value, _ int) bool {
 		structural := true
 		for _, d := range devs {
 			if !cgenDevStructural(d) {
 				structural = false
+			}
+		}
+		if !structural && len(devs) == 1 && len0 >= 0 {
+			// a value of a fixed-width field does not change the shape; a value of a compact
+			// (variable-length) integer does: decide by the length of the encoding
+			var e1 []byte
+			var err1 error
+			if p, _, _ := vlib.Guard(func() { e1, err1 = ct.Enc(v.Addr()) }); !p && err1 == nil && len(e1) != len0 {
+				structural = true
 			}
 		}
 		if structuralOnly && !structural {
@@ -865,7 +930,7 @@ func cgenSeedsSel(ct *cgenType, k, maxLen int, structuralOnly bool) []cgenSeed {
 			return true
 		}
 		seen[string(enc)] = true
-		out = append(out, cgenSeed{ct, append([]cgenDev(nil), devs...), enc, 0, structural})
+		out = append(out, cgenSeed{ct: ct, devs: append([]cgenDev(nil), devs...), enc: enc, structural: structural})
 		return true
 	})
 	return out
@@ -879,6 +944,34 @@ type cgenMut struct {
 }
 
 var cgenInsertVals = []uint64{1 << 56, ^uint64(0), 1 << 16, 1 << 31, 1 << 32}
+
+// cgenExtraIns: further inserted naturals (all >= 2^56, so no allocator satisfies them), set by C14:
+// lengths whose product with a plausible element size wraps around 2^64.
+var cgenExtraIns []uint64
+
+// cgenWrapLengths: 2^64/e + k for element sizes e and k in {0,1}, and 2^59..2^63.
+func cgenWrapLengths() []uint64 {
+	var out []uint64
+	seen := map[uint64]bool{}
+	add := func(v uint64) {
+		if !seen[v] {
+			seen[v] = true
+			out = append(out, v)
+		}
+	}
+	for _, e := range []uint64{2, 4, 8, 16, 32, 64, 96, 128, 144, 336, 784} {
+		q := ^uint64(0)/e + 1 // ceil(2^64/e) for e not dividing 2^64, 2^64/e otherwise
+		if (^uint64(0))%e != e-1 {
+			q = ^uint64(0) / e // floor; q+1 is the first whose product wraps
+		}
+		add(q)
+		add(q + 1)
+	}
+	for sh := uint(59); sh <= 63; sh++ {
+		add(uint64(1) << sh)
+	}
+	return out
+}
 
 func cgenNat(v uint64) []byte {
 	b, _ := types.NewEncoder().EncodeUint(v)
@@ -952,6 +1045,9 @@ func cgenMutations(s []byte, full bool, f func(m cgenMut)) {
 		ins(p, 1<<16)
 		ins(p, 1<<56)
 		ins(p, ^uint64(0))
+		for _, v := range cgenExtraIns {
+			ins(p, v)
+		}
 		if p < len(s) {
 			f(cgenMut{Kind: "prefix", Pos: p})
 			for _, x := range cgenReplLattice(s[p], full) {
